@@ -50,8 +50,51 @@ pub mod time {
         open spec fn sub_req(self, rhs: OffsetDateTime) -> bool { self.wf() && rhs.wf() }
         open spec fn sub_spec(self, rhs: OffsetDateTime) -> Duration { Duration { ns: (self.ns - rhs.ns) as i128 } }
     }
+    impl core::ops::Add<Duration> for OffsetDateTime {
+        type Output = OffsetDateTime;
+        fn add(self, rhs: Duration) -> (r: OffsetDateTime) { OffsetDateTime { ns: self.ns + rhs.ns } }
+    }
+    impl vstd::std_specs::ops::AddSpecImpl<Duration> for OffsetDateTime {
+        open spec fn obeys_add_spec() -> bool { true }
+        open spec fn add_req(self, rhs: Duration) -> bool { self.wf() && -2 * BOUND <= rhs.ns <= 2 * BOUND }
+        open spec fn add_spec(self, rhs: Duration) -> OffsetDateTime { OffsetDateTime { ns: (self.ns + rhs.ns) as i128 } }
+    }
+    impl core::ops::Sub<Duration> for OffsetDateTime {
+        type Output = OffsetDateTime;
+        fn sub(self, rhs: Duration) -> (r: OffsetDateTime) { OffsetDateTime { ns: self.ns - rhs.ns } }
+    }
+    impl SubSpecImpl<Duration> for OffsetDateTime {
+        open spec fn obeys_sub_spec() -> bool { true }
+        open spec fn sub_req(self, rhs: Duration) -> bool { self.wf() && -2 * BOUND <= rhs.ns <= 2 * BOUND }
+        open spec fn sub_spec(self, rhs: Duration) -> OffsetDateTime { OffsetDateTime { ns: (self.ns - rhs.ns) as i128 } }
+    }
+    impl PartialEq for OffsetDateTime {
+        fn eq(&self, other: &OffsetDateTime) -> (r: bool) { self.ns == other.ns }
+    }
+    impl PartialEqSpecImpl for OffsetDateTime {
+        open spec fn obeys_eq_spec() -> bool { true }
+        open spec fn eq_spec(&self, other: &OffsetDateTime) -> bool { self.ns == other.ns }
+    }
+    impl PartialOrd for OffsetDateTime {
+        fn partial_cmp(&self, other: &OffsetDateTime) -> (r: Option<core::cmp::Ordering>) {
+            if self.ns < other.ns { Some(core::cmp::Ordering::Less) } else if self.ns > other.ns { Some(core::cmp::Ordering::Greater) } else { Some(core::cmp::Ordering::Equal) }
+        }
+    }
+    impl PartialOrdSpecImpl for OffsetDateTime {
+        open spec fn obeys_partial_cmp_spec() -> bool { true }
+        open spec fn partial_cmp_spec(&self, other: &OffsetDateTime) -> Option<core::cmp::Ordering> {
+            if self.ns < other.ns { Some(core::cmp::Ordering::Less) } else if self.ns > other.ns { Some(core::cmp::Ordering::Greater) } else { Some(core::cmp::Ordering::Equal) }
+        }
+    }
     impl Duration {
+        pub const ZERO: Duration = Duration { ns: 0 };
         pub fn seconds(s: i64) -> (r: Duration) ensures r.ns == s * 1_000_000_000 { Duration { ns: (s as i128) * 1_000_000_000 } }
+        pub fn minutes(m: i64) -> (r: Duration) ensures r.ns == m * 60_000_000_000 { Duration { ns: (m as i128) * 60_000_000_000 } }
+        pub fn hours(h: i64) -> (r: Duration) ensures r.ns == h * 3_600_000_000_000 { Duration { ns: (h as i128) * 3_600_000_000_000 } }
+        pub fn days(d: i64) -> (r: Duration) ensures r.ns == d * 86_400_000_000_000 { Duration { ns: (d as i128) * 86_400_000_000_000 } }
+        pub fn milliseconds(ms: i64) -> (r: Duration) ensures r.ns == ms * 1_000_000 { Duration { ns: (ms as i128) * 1_000_000 } }
+        pub fn is_positive(self) -> (r: bool) ensures r == (self.ns > 0) { self.ns > 0 }
+        pub fn is_zero(self) -> (r: bool) ensures r == (self.ns == 0) { self.ns == 0 }
         pub fn is_negative(self) -> (r: bool) ensures r == (self.ns < 0) { self.ns < 0 }
         pub fn abs(self) -> (r: Duration)
             requires -2 * BOUND <= self.ns <= 2 * BOUND
